@@ -32,10 +32,11 @@ type xport struct {
 	receiving bool // the receive loop is waiting in RecvMessage
 	dirty     int  // received messages released with a populated CapTable
 
-	// window control: the next outgoing message of kind holdKind ('c' Call, 'r' Return) stays inside
+	// window control: the next outgoing message of kind holdKind ('c' Call, 'r' Return, 'l' Release) stays inside
 	// send() until release is closed (a slow / back-pressured write)
 	holdKind byte
 	release  chan struct{}
+	failKind byte // fault injection: the next outgoing message of this kind ('f' Finish, ...) is not written, send fails
 }
 
 func newXport() *xport {
@@ -62,8 +63,15 @@ func (x *xport) NewMessage(ctx context.Context) (rpccp.Message, func() error, ca
 			return err
 		}
 		x.mu.Lock()
+		if (x.failKind == 'f' && m.Which() == rpccp.Message_Which_finish) || (x.failKind == 'c' && m.Which() == rpccp.Message_Which_call) ||
+			(x.failKind == 'r' && m.Which() == rpccp.Message_Which_return) || (x.failKind == 'l' && m.Which() == rpccp.Message_Which_release) {
+			x.failKind = 0
+			x.mu.Unlock()
+			return errors.New("injected write failure")
+		}
 		var wait chan struct{}
-		if (x.holdKind == 'c' && m.Which() == rpccp.Message_Which_call) || (x.holdKind == 'r' && m.Which() == rpccp.Message_Which_return) {
+		if (x.holdKind == 'c' && m.Which() == rpccp.Message_Which_call) || (x.holdKind == 'r' && m.Which() == rpccp.Message_Which_return) ||
+			(x.holdKind == 'l' && m.Which() == rpccp.Message_Which_release) {
 			wait = x.release
 			x.holdKind = 0
 		}
@@ -148,7 +156,11 @@ type world struct {
 	x    *xport
 	conn *rpc.Conn
 
-	ackHold [nsrv]chan struct{} // non-nil: deliveries to server j wait at its gate (are not acknowledged) until it is closed
+	open      map[int]bool        // wire oracle: question ids the peer holds as unfinished answers (Call/Bootstrap seen, no Finish yet)
+	reuse     bool                // a Call/Bootstrap reused such an id
+	oracle    bool                // the peer of this history keeps to the protocol (streams v, x): reuse is a violation
+	placeHold chan struct{}       // non-nil: the next PlaceArgs callback waits until it is closed (window "p")
+	ackHold   [nsrv]chan struct{} // non-nil: deliveries to server j wait at its gate (are not acknowledged) until it is closed
 
 	mu        sync.Mutex
 	master    [nsrv]*capnp.Client
@@ -218,7 +230,7 @@ func (g *gate) Brand() capnp.Brand { return g.inner.State().Brand }
 func (g *gate) Shutdown() { g.inner.Release() }
 
 func newWorld(boot bool) *world {
-	w := &world{x: newXport(), pending: map[int]*pend{}, issue: map[int]chan func(){}}
+	w := &world{x: newXport(), pending: map[int]*pend{}, issue: map[int]chan func(){}, open: map[int]bool{}}
 	for j := 0; j < nsrv; j++ {
 		j := j
 		srv := server.New([]server.Method{{
@@ -329,6 +341,13 @@ func (w *world) placeArgs(caps []string, tag uint32, hold chan struct{}) func(ca
 	return func(s capnp.Struct) error {
 		if hold != nil {
 			<-hold
+		}
+		w.mu.Lock()
+		ph := w.placeHold
+		w.placeHold = nil
+		w.mu.Unlock()
+		if ph != nil {
+			<-ph // window "p": the application is still building its parameters
 		}
 		s.SetUint32(0, tag)
 		for i, c := range caps {
@@ -519,6 +538,21 @@ func (w *world) observe() (msgs []string, obs string) {
 	w.deliv = nil
 	apps := sortedJoin(w.appres)
 	w.appres = nil
+	// wire oracle for "a question id is not reused before its Finish is sent", in wire order
+	for _, m := range msgs {
+		if len(m) > 1 && (m[0] == 'B' || m[0] == 'C' || m[0] == 'F') && m[1] >= '0' && m[1] <= '9' {
+			q, _ := strconv.Atoi(strings.SplitN(m[1:], ",", 2)[0])
+			switch m[0] {
+			case 'F':
+				delete(w.open, q)
+			default:
+				if w.open[q] {
+					w.reuse = true
+				}
+				w.open[q] = true
+			}
+		}
+	}
 	// a Call seen by the peer belongs to the newest local call that has no question yet
 	for _, m := range msgs {
 		if strings.HasPrefix(m, "C") {
@@ -545,6 +579,9 @@ func (w *world) observe() (msgs []string, obs string) {
 			sh = 1
 		}
 		view = fmt.Sprintf("v%d,%d,%d,%d,%d,%d,%d", sh, v.Questions, v.Answers, v.Exports, v.WireRefs, v.Imports, v.Embargoes)
+	}
+	if w.reuse && w.oracle {
+		view += ",REUSE"
 	}
 	return msgs, sortedJoin(msgs) + "~" + deliv + "~" + apps + "~" + view
 }
@@ -621,11 +658,12 @@ func (w *world) finish() string {
 	return s
 }
 
-// openWindow arms the interleaving control of a composite event: hold is "c" / "r" (the next
-// Call / Return stays inside the transport's send) or "a<j>" (server j withholds its acks).
+// openWindow arms the interleaving control of a composite event: hold is "c" / "r" / "l" (the next
+// Call / Return / Release stays inside the transport's send), "p" (the next local call stays inside its
+// PlaceArgs callback: question allocated, nothing sent, locks dropped) or "a<j>" (server j withholds its acks).
 func (w *world) openWindow(hold string) func() {
 	switch hold[0] {
-	case 'c', 'r':
+	case 'c', 'r', 'l':
 		ch := make(chan struct{})
 		w.x.mu.Lock()
 		w.x.holdKind = hold[0]
@@ -635,6 +673,17 @@ func (w *world) openWindow(hold string) func() {
 			w.x.mu.Lock()
 			w.x.holdKind = 0
 			w.x.mu.Unlock()
+			close(ch)
+		}
+	case 'p':
+		ch := make(chan struct{})
+		w.mu.Lock()
+		w.placeHold = ch
+		w.mu.Unlock()
+		return func() {
+			w.mu.Lock()
+			w.placeHold = nil
+			w.mu.Unlock()
 			close(ch)
 		}
 	case 'a':
